@@ -7,6 +7,7 @@ ENGINES = {
 	'C04': ('tranpsim.c04', 'C04'),
 	'C05': ('tranpsim.c05', 'C05'),
 	'C06': ('tranpsim.c06', 'C06'),
+	'C07': ('tranpsim.c07', 'C07'),
 	'C14': ('tranpsim.c14', 'C14'),
 	'C15': ('tranpsim.c15', 'C15'),
 }
